@@ -85,6 +85,12 @@ def run(ctx):
     r.check(ok, "%s#kernel" % hce.qname, "commit retry delay kernel is not min(delay*F, max) carried to the next attempt "
             "with attempt+1", where(hce, nd[0].stmt), facts=["F=%r cap=%s" % (k2 or (None, None))])
 
+    for h in (hoe, hfe):
+        for c in calls_in(h, rf.name):
+            r.check(not c.args and not c.keywords, "%s#backoff-applies" % h.qname,
+                    "the error handler passes an explicit delay (%s) to the retry scheduler, which bypasses the geometric growth" % norm(c),
+                    where(h, c), "consecutive failures are all retried after the same delay")
+
     # ---- R2 reset on success
     r = ctx.rule("R2", "both success handlers reset delay and attempt count on every path", 4, "A")
     for h in (hor, hfr):
@@ -218,6 +224,10 @@ MUTANTS = [
      "old": "                after = self.retry_delay\n                self.retry_delay = min(self.retry_delay * REQUEST_RETRY_FACTOR, self.retry_max_delay)\n",
      "new": "                self.retry_delay = min(self.retry_delay * REQUEST_RETRY_FACTOR, self.retry_max_delay)\n                after = self.retry_delay\n",
      "expect": "C14.R1"},
+    {"id": "offset-error-fixed-delay", "file": "consumer.py",
+     "old": "            log.warning(\"%r: Still failing fetching offset from kafka: %r\", self, failure)\n        self._retry_fetch()",
+     "new": "            log.warning(\"%r: Still failing fetching offset from kafka: %r\", self, failure)\n        self._retry_fetch(self.retry_delay)",
+     "expect": "C14.R1", "note": "seeded C14-3"},
     {"id": "no-reset-on-fetch-success", "file": "consumer.py",
      "old": "        # Successful fetch, reset our retry delay\n        self.retry_delay = self.retry_init_delay\n", "new": "",
      "expect": "C14.R2"},
